@@ -178,6 +178,7 @@ func (op *CanonicalOrderedPartition) splitBin(i int, neighbours [][]int, current
 //expandValue extends the current value of the CanonicalOrderedPartition. It also compares it with the currentBest and firstLeaf and returns false if there is no reason to continue exploring this branch.
 //The value might be incomplete if worse is false.
 func (op *CanonicalOrderedPartition) expandValue(neighbours [][]int, currentBest []int, firstLeaf []int) (worse bool) {
+	initialLength := len(op.value)
 	for j := op.singletonPrefixLength; j < len(op.order); j++ {
 		binSize := 0
 		if j == 0 {
@@ -199,6 +200,8 @@ func (op *CanonicalOrderedPartition) expandValue(neighbours [][]int, currentBest
 		}
 		ints.Sort(op.value[startValue:])
 		if len(currentBest) > 0 && ints.Compare(op.value, currentBest[:len(op.value)]) == -1 && ints.Compare(op.value, firstLeaf[:len(op.value)]) != 0 {
+			//The singleton prefix length has not been advanced so the entries added in this call must not be kept.
+			op.value = op.value[:initialLength]
 			return true
 		}
 	}
